@@ -80,6 +80,10 @@ def _value_pool():
       {'macro': 'M0'}, {'list': [{'macro': 'M1'}]},
       {'obj': 'tok'}, {'obj': 'inf'}, {'obj': 'nan'}, {'obj': 'enum'},
       {'obj': 'set'}, {'obj': 'list_with_tok'},
+      # references as dict keys (written with more than their minimal name) and
+      # as dict values
+      {'dict': [[{'ref': ['', 'q.Zed', False]}, {'lit': 1}]]},
+      {'dict': [[{'lit': 'k'}, {'ref': ['s1', 'rootmod.h', False]}]]},
   ]
 
 
@@ -157,6 +161,8 @@ def _has_ref(v):
   for k in ('list', 'tuple'):
     if k in v and any(_has_ref(x) for x in v[k]):
       return True
+  if 'dict' in v and any(_has_ref(k) or _has_ref(x) for k, x in v['dict']):
+    return True
   return False
 
 
@@ -174,6 +180,10 @@ def typed(x):
                            key=repr))
   if isinstance(x, float):
     return ('float', repr(x))
+  if hasattr(x, 'configurable') and hasattr(x, 'scopes'):
+    # a reference: what it refers to, not how it happens to be spelled
+    return ('reference', '/'.join(x.scopes), x.configurable.selector,
+            bool(x.evaluate))
   s = probes.stable(x)
   return (type(x).__name__, s)
 
